@@ -1175,18 +1175,20 @@ impl Apply for Expression {
             Expression::EvalCompiler(x) => Ok(Self::EvalCompiler(Box::new(x.reduce()?))),
             Expression::AdHocDirective(x) => Ok(Self::AdHocDirective(Box::new(x.reduce()?))),
 
-            // the following ones can be turned into simpler expressions
+            // the following ones can be turned into simpler expressions (what comes back from
+            // `reduce` is reduced already: reducing it once more would walk the whole operand
+            // again at every level, which is exponential in the depth of a chain of operations)
             Expression::EvalBuiltIn(x) => match x.reduce()? {
                 BuiltInOp::NoOp(x) => Ok(x),
-                x => Ok(Expression::EvalBuiltIn(Box::new(x.reduce()?))),
+                x => Ok(Expression::EvalBuiltIn(Box::new(x))),
             },
             Expression::EvalCoerce(x) => match x.reduce()? {
                 Coerce::NoOp(x) => Ok(x),
-                x => Ok(Expression::EvalCoerce(Box::new(x.reduce()?))),
+                x => Ok(Expression::EvalCoerce(Box::new(x))),
             },
             Expression::EvalParam(x) => match x.reduce()? {
                 Param::Set(x) => Ok(x),
-                x => Ok(Expression::EvalParam(Box::new(x.reduce()?))),
+                x => Ok(Expression::EvalParam(Box::new(x))),
             },
 
             // Don't fall into the temptation of simplifying the following cases under a single
